@@ -196,8 +196,8 @@ def api_oracle(case, io):
                 continue
             qt = ast_io.term_text(['fun', q[0], q[1]]) if q[1] else q[0]
             pl = v['plain']
-            if pl['end'] == 'budget':
-                continue
+            if pl['end'] in ('budget', 'raised RecursionError') or bq['end'] == 'raised RecursionError':
+                continue        # search budget; cyclic terms (no occurs check) / depth: outside the domain, as for the model
             if exact and (pl['end'] != bq['end'] or pl['answers'] != bq['answers'] or pl['count'] != bq['count']):
                 return 'query %s: %s answers differently from the all-compiled single script (%s after %d answers vs %s after %d)' % (qt, names[which], pl['end'], pl['count'], bq['end'], bq['count'])
             if pl['leftover'] and pl['end'] == 'done':
